@@ -17,6 +17,12 @@ CHECKS = {
  "C04": (MC, "TLA+ Sequence specification with per-kind semantics; SeqModel checked exhaustively by TLC; every model transition replayed on real Array/List/Tuple; recorded executions validated by TLC (SeqTrace)",
          "TLC enumerates all histories of push/pop/push_at/pop_at/set/get/rem/concat/resize/sort/copy with every in- and out-of-range index over a small value set per kind (Array with its backing-store policy) and checks capacity, sorted-permutation, first-occurrence and fail-stutter properties; all transitions plus random histories with Int, String and Probe elements are executed on the real containers and each recorded call (len, get(+-i), mem, iteration both ways) is a checked step of Sequence.",
          "exhaustive only for the constants of spec/Seq_*.cfg; Tuples never hold the same object twice (open finding); List growth by resize only for Int elements", "5/C04"),
+ "C05": (MC, "TLA+ Ownership model (instances issued/retired by container operations) checked exhaustively by TLC, defect switches refuted; real containers with ledger-keeping Probe elements; every recorded call validated by TLC (MapTrace/SeqTrace Mode own)",
+         "TLC checks LiveIsHeld, Disjoint, OnceOnly, NeverWhileHeld, AllGone, RetireMonotone on the ownership model and refutes the leak-on-refused-insert and orphan-on-replace designs; every transition of the Table/Array/List models and random mixed histories (Table, Tree, Array, List, Array/List of Box) run with an element type that has its own constructor/assign/destructor and owns heap memory, and after every call TLC checks that the instances inside all containers are pairwise distinct and are exactly the live instances of the ledger, with no double or unknown finalisation and nothing left after deletion.",
+         "the ledger lives in the harness' Probe type; Boxes are never aliased (documented contract)", "5/C05"),
+ "C12": (MC, "Fail transitions of the TLA+ container models (FailStutter checked by TLC from every reachable state) replayed on the real containers inside try/catch; TLC validates exception type and unchanged projections (SeqTrace/MapTrace Mode fail)",
+         "from every reachable state of the sequence models every invalid-argument class is tried and TLC checks that failing steps stutter; those fail edges plus random histories salted with indices one past either end / far out / INT64 limits, pops of empty containers, absent keys and elements, wrong-typed and NULL keys, values and elements, non-container operands and impossible resizes run on real Arrays, Lists, Tuples, Tables and Trees, and TLC checks that each failing call raises the documented exception type and leaves every live container's projection unchanged while the history continues.",
+         "default checked build; one open finding (assign from a non-container source clears the target) is withheld from generation and reported by its pinned script; String/File/allocation-class failures are judged by C16/C20/C19", "5/C12"),
 }
 
 NOT_YET = {
